@@ -103,6 +103,18 @@ def proj : P String := do
   let v := v.diffIf (!(closeL (projectImpl vin) out)) s!"{comp} branch={br} model={(projectImpl vin).map ratStr} impl={out.map ratStr}"
   return v.render
 
+/-- `isprob v… | template dense sparse` : the three `isProbability` overloads on one row (model tie only) -/
+def isprob : P String := do
+  let l ← P.qs; P.bar; let t ← P.bool; let md ← P.bool; let ms ← P.bool; P.eof
+  let comp := "isProbability"
+  let absSum := (l.map absQ).sum
+  if decide (probMargin l < tolCmp) || decide (absQ (absQ (absSum - 1) - Gen.equalToleranceSmall) < tolCmp) then return "skip ill_conditioned" else
+  let v : Verdict := { tag := if isProb l then "isprob-accept" else "isprob-reject" }
+  let v := v.diffIf (isProb l != t) s!"{comp} template model={isProb l} impl={t}"
+  let v := v.diffIf (isProb l != md) s!"{comp} Matrix2D model={isProb l} impl={md}"
+  let v := v.diffIf (isProbSparse l != ms) s!"{comp} SparseMatrix2D model={isProbSparse l} impl={ms}"
+  return v.render
+
 /-- `rand draws… | out… words` -/
 def rand : P String := do
   let us ← P.qs; P.bar; let out ← P.qs; let words ← P.nat; P.eof
@@ -206,6 +218,7 @@ def handle (toks : List String) : String :=
     | "sr" :: rest => P.run sr rest
     | "sor" :: rest => P.run sor rest
     | "fsr" :: rest => P.run fsr rest
+    | "isprob" :: rest => P.run isprob rest
     | _ => none
   r.getD "bad-op"
 
